@@ -22,6 +22,19 @@ CONTAINER_KINDS = ("schema", "configtype", "schemalist")
 NAMES = [None, None, None, "Friendly Name", "a name with: colon"]
 
 
+class _Factory:
+    """A default factory that is an object with __call__ (and a bound method of it)."""
+
+    def __init__(self, fn):
+        self.fn = fn
+
+    def __call__(self):
+        return self.fn()
+
+    def make(self):
+        return self.fn()
+
+
 def _default_for(spec):
     """Strategy for the 'default' entry of a leaf: only defaults that are already valid and normal."""
     kind = spec["kind"]
@@ -178,6 +191,16 @@ class World:
         def call():
             counter[0] += 1
             return specs.realize(value)
+
+        # "callable" means callable(): a plain function, a functools.partial, an object with __call__, a bound method
+        form = sum(map(ord, ".".join(map(str, path)))) % 4
+        if form == 1:
+            import functools
+            return {"default": functools.partial(lambda _c: _c(), call)}
+        if form == 2:
+            return {"default": _Factory(call)}
+        if form == 3:
+            return {"default": _Factory(call).make}
         return {"default": call}
 
     def _schema_validator(self, path, sv):
